@@ -168,12 +168,23 @@ func (tr *tracker) literalCheck(lit []*obligation) []*obligation {
 	return keep
 }
 
-func TestC05Retention(t *testing.T) {
+func TestC05Retention(t *testing.T) { retention(t, rec, false) }
+
+var recPersistent = vstats.New("TestC05RetentionPersistent")
+
+// TestC05RetentionPersistent: the same obligations on stores with the
+// PERSISTENT block list (block-device allocator and index, state directory,
+// no restart): epochs are created by uploads, released blocks come back only
+// after a state write (action `drain` runs the syncers), allocation failures
+// in between.
+func TestC05RetentionPersistent(t *testing.T) { retention(t, recPersistent, true) }
+
+func retention(t *testing.T, rec *vstats.Recorder, persistent bool) {
 	known := vstats.KnownListed("C05", findingKey)
 	known2 := vstats.KnownListed("C05", findingKey2)
 	rapid.Check(t, func(t *rapid.T) {
 		c := rec.Begin()
-		cfg := lstore.GenConfig(t, lstore.GenOpts{BigIndex: true, AllowAC: true, Factories: []string{"cas", "raw"}, MaxBlockBytes: 96})
+		cfg := lstore.GenConfig(t, lstore.GenOpts{Persistent: persistent, BigIndex: true, AllowAC: true, Factories: []string{"cas", "raw"}, MaxBlockBytes: 96})
 		c.Add(cfg.String())
 		w := lstore.NewWorld(t, cfg, nil, rapid.Uint64().Draw(t, "hashInit"))
 		defer w.Close()
@@ -395,6 +406,12 @@ func TestC05Retention(t *testing.T) {
 		delete(acts, "findmissing")
 		acts["touchGet"] = touchGet
 		acts["touchFind"] = touchFind
+		if persistent {
+			acts["drain"] = func(t *rapid.T) {
+				c.Add("drain")
+				w.Drain()
+			}
+		}
 		slowGets := 0
 		acts[""] = func(t *rapid.T) {
 			w.CheckMonitors()
@@ -415,6 +432,9 @@ func TestC05Retention(t *testing.T) {
 		}
 		t.Repeat(acts)
 		h.Quiesce()
+		if persistent {
+			w.Drain()
+		}
 		tr.check()
 		literal = tr.literalCheck(literal)
 
@@ -430,6 +450,7 @@ func TestC05Retention(t *testing.T) {
 		c.ClassIf(cfg.Mutable, "ac_policy")
 		c.ClassIf(cfg.Hierarchical, "hierarchical")
 		c.ClassIf(w.St.BL.PopFronts > 0, "rotated")
+		c.ClassIf(w.St.Alloc.NewBlockFailures > 0, "alloc_failures")
 		if tr.refreshingTouches > 0 && tr.checkedAfterAllocs > 0 {
 			c.NonTrivial()
 		}
